@@ -406,6 +406,9 @@ void namePlainRegion(const void* addr, size_t bytes, size_t elemSize, const char
   if (a + bytes > G.plainHi) G.plainHi = a + bytes;
 }
 
+static long g_ghost[32];
+void ghostAdd(int slot, long delta) { g_ghost[slot & 31] += delta; }
+long ghostGet(int slot) { return g_ghost[slot & 31]; }
 void note(const char* f, ...) {
   char buf[512];
   va_list ap;
